@@ -26,6 +26,8 @@ class _Ctx:
         return self.method
 
 
+_J = {int: _init0}
+_REDUCERS = [(None, None), (_J, None), (_J, {}), (_J, _J)]
 _CTX = [None, _Ctx("loky"), _Ctx("fork")]
 _INIT = [None, _init0]
 
@@ -58,6 +60,17 @@ def _mk_cls(log):
     return Rec
 
 
+def check_factory_reducers(p_red: int, red: int, reuse: int, p_shutdown: bool, same_timeout: bool) -> bool:
+    """
+    pre: 0 <= p_red <= 3 and 0 <= red <= 3 and 0 <= reuse <= 2
+    post: _
+    """
+    # the reducer dimension of the request on its own (other arguments fixed): none / job only / job + explicitly
+    # empty result reducers / both, for the previous and the new request
+    return _factory_step(True, False, bool(p_shutdown), 2, 0, 0, 2, 2, 0 if same_timeout else 1, 0, reuse, False, 0, False,
+                         p_red, red)
+
+
 def check_factory_step(has_prev: bool, p_broken: bool, p_shutdown: bool, p_mw: int, p_timeout: int,
                        p_init: int, next_id: int, mw: int, timeout: int, init: int, reuse: int,
                        kill: bool, ctx: int, interrupted: bool = False) -> bool:
@@ -68,18 +81,28 @@ def check_factory_step(has_prev: bool, p_broken: bool, p_shutdown: bool, p_mw: i
     pre: 0 <= reuse <= 2 and 0 <= ctx <= 2
     post: _
     """
+    return _factory_step(has_prev, p_broken, p_shutdown, p_mw, p_timeout, p_init, next_id, mw, timeout, init, reuse,
+                         kill, ctx, interrupted, 0, 0)
+
+
+def _factory_step(has_prev, p_broken, p_shutdown, p_mw, p_timeout, p_init, next_id, mw, timeout, init, reuse,
+                  kill, ctx, interrupted, p_red, red):
     mw = _conc(mw + 2, 5) - 2
     reuse_v = [True, False, "auto"][_conc(reuse, 2)]
     ctx_v = _CTX[_conc(ctx, 2)]
     log = Log()
     Rec = _mk_cls(log)
     max_workers = None if mw == -2 else mw
-    kw = dict(context=ctx_v, timeout=timeout, job_reducers=None, result_reducers=None,
+    # reducers: none / job only (results default to them) / job + explicitly empty result reducers (results are
+    # NOT customised) / both - four different requests; 'auto' reuses only when the request is unchanged
+    jr, rr = _REDUCERS[_conc(red, 3)]
+    kw = dict(context=ctx_v, timeout=timeout, job_reducers=jr, result_reducers=rr,
               initializer=_INIT[_conc(init, 1)], initargs=(), env=None)
     prev = None
     prev_kw = None
     if has_prev:
-        prev_kw = dict(context=None, timeout=p_timeout, job_reducers=None, result_reducers=None,
+        pjr, prr = _REDUCERS[_conc(p_red, 3)]
+        prev_kw = dict(context=None, timeout=p_timeout, job_reducers=pjr, result_reducers=prr,
                        initializer=_INIT[_conc(p_init, 1)], initargs=(), env=None)
         prev = Rec(rx._executor_lock, max_workers=p_mw, executor_id=next_id - 1, **prev_kw)
         prev._flags.shutdown = p_shutdown or p_broken
